@@ -5,7 +5,10 @@ spec/TtxFormatL1.tla: Level 1 presentation of a row (spacing attributes, mosaics
 MC:  all packet interleavings of 2 magazines / 3 pages / subpages / 3 rows / 2 contents (OneVersion, KeepsRows).
 GEN: one transmission per distinct terminal state; Eval_TtxFormat: TLC evaluates the presentation of the row library.
 REPLAY: harness/drv_ttx.c feeds real packets through vbi_decode(); at every termination point vbi_fetch_vt_page (exact and wildcard
-  subpage) is compared cell by cell (character, colours, flash, conceal, size) with the spec, plus page/subpage number, page events."""
+  subpage) is compared cell by cell (character, colours, flash, conceal, size) with the spec, plus page/subpage number, page events.
+spec/TtxFlof.tla (third round): the links of X/27/0 (magazine of a link = magazine of the page XOR relative bits, FF = no page) for every
+  magazine 1..8 of the linking page, and which row 24 a fetch with 24 / 25 rows, navigation on / off displays; Eval_TtxFlof prints both.
+spec/Gen_TtxRetx.tla: transition cover of retransmissions of a stored page (erase set / clear, with / without row 24 and links)."""
 import json, os, random, shutil
 from vlib import tlc, build, core, ttx
 
@@ -13,9 +16,10 @@ MANIFEST = dict(
     level="model_checking",
     engine="tlc-mc+replay",
     technique="TLA+ specs TtxAssembly (reference reception semantics, all magazine interleavings) and TtxFormatL1 (Level 1 row presentation "
-              "from EN 300 706 12.2/15: all 32 spacing attributes) checked/evaluated by TLC; every generated transmission is sent as real "
-              "packets through vbi_decode and the fetched pages (cells, FLOF links) are compared with the pages the specification predicts "
-              "at each termination point",
+              "from EN 300 706 12.2/15: all 32 spacing attributes) and TtxFlof (X/27/0 links relative to the magazine of the page, row 24 "
+              "per fetch variant) checked/evaluated by TLC; every generated transmission is sent as real "
+              "packets through vbi_decode and the fetched pages (cells, FLOF links; 24 / 25 display rows, navigation on / off) are compared "
+              "with the pages the specification predicts at each termination point",
     text="TLC explores every interleaving of headers, rows (any order, omitted, overwritten), FLOF packets and time-filling headers of two "
          "magazines in serial and parallel mode, with erase set/clear, single pages and pages with subpages, and computes for every "
          "termination point the page that must be stored (rows and links of this transmission over the previous version unless erased). The "
@@ -25,18 +29,28 @@ MANIFEST = dict(
          "and alphanumerics mode behind a mosaic character (Set-At shows in the attribute's cell, Set-After in the next; the held character "
          "is reset by a change of mode or size). The real decoder receives the same transmissions; at every termination point the exact "
          "and the wildcard subpage fetch must return exactly those cells, page and subpage number and the transmitted FLOF links "
-         "(nav_link), and exactly one page event must have been raised per transmission.",
+         "(nav_link), and exactly one page event must have been raised per transmission. The model's two magazines are sent as every "
+         "ordered pair of real magazines 1..8; TLC (TtxFlof) computes for every magazine of the linking page the links as transmitted "
+         "(relative magazine bits 0..7 in every link position, page FF = no link, subcode 3F7F) and the links the fetch must offer. A "
+         "transition cover of retransmissions (Gen_TtxRetx) sends a stored page again with erase set / clear and with all, some or none "
+         "of its rows and links; every terminated version is fetched with 25 and 24 display rows, navigation off and on: rows 1-23 must "
+         "be the same, a row 24 the version holds (also one kept from an earlier transmission) must be displayed as transmitted.",
     note="Bounded: 2 magazines, 3-5 page numbers, subpages {1,2}, rows {1,2,24}, <= 6 packets per behaviour of the exhaustive cover (every "
-         "20th behaviour replayed; quick: 5 packets, rows {1,24}, every 48th) and 14 packets per random transmission; row contents come from a library of "
+         "20th behaviour replayed; quick: 5 packets, rows {1,24}, every 96th) and 14 packets per random transmission; row contents come from a library of "
          "128 systematic + 40 seeded rows. Not covered: national sub-sets other than English and German, a second G0 set (ESC without "
          "X/28), Level 1.5+ enhancement, two consecutive headers with the same page number, double height/size on rows 23/24 or without "
-         "a cell to govern, double width characters in column 39 (EN 300 706 12.2 leaves these open), pages with newsflash/subtitle flags.",
+         "a cell to govern, double width characters in column 39 (EN 300 706 12.2 leaves these open), pages with newsflash/subtitle flags, "
+         "the content of a row 24 the decoder generates itself when none was transmitted and navigation is on (TtxFlof: GeneratedRow24), "
+         "links to hexadecimal page numbers, X/27/0 with link control 'row 24 not displayed'.",
 )
 
-QUICK_SAMPLE = 48          # quick tier: every 48th behaviour of the bounded cover (196 544, 5 packets) is replayed
+QUICK_SAMPLE = 96          # quick tier: every 96th behaviour of the bounded cover (196 544, 5 packets) is replayed
+QUICK_RETX = 2             # quick tier: every 2nd transmission of the retransmission cover (3 728) is replayed
 THOROUGH_SAMPLE = 20       # thorough tier: every 20th behaviour of the bounded cover (2 497 312, 6 packets)
 BLANK = [32, 7, 0, 0, 0, 0, 0]
 FIELDS = ["char", "foreground", "background", "flash", "conceal", "size", "boxed"]
+# fetch variants besides the plain one (Level 1, 25 rows, navigation off): (level, display rows, navigation)
+VARIANTS = [(15, 25, 1), (1, 24, 0), (15, 24, 1)]
 
 
 def canon(cell):
@@ -51,6 +65,9 @@ def canon(cell):
 def canon7(cell):
     """canon() plus boxed (0 / 1)"""
     return canon(cell) + [cell[6] if len(cell) > 6 else 0]
+
+
+BLANK40 = [canon7([32, 7, 0, 0, 0, 0, 0])] * 40
 
 
 # libzvbi's representation of the opacity of a Level 1 page without newsflash / subtitle / inhibit flags (format.h): a cell
@@ -194,6 +211,67 @@ def flof_packet(mag, f):
     return pk
 
 
+def eval_flof(ctx):
+    """TLC evaluates TtxFlof: -> dict(links={(M, f, v): dict(raw=[[units, tens, rel, sub] x 6], want=[(pgno, subcode) x 6])},
+    r24={(own, flof, nrows, nav): "absent" | "own" | "blank" | "open"})"""
+    r = tlc.run("Eval_TtxFlof", "Eval_TtxFlof", timeout=300, workers=1, collect_tr=True, heap="1g")
+    ctx.add_mc(r, "EVAL TtxFlof (links of every magazine, row 24 rule)")
+    links = {(e["M"], e["f"], e["v"]): dict(raw=[list(x) for x in e["raw"]], want=[tuple(x) for x in e["want"]]) for e in r.tr if "M" in e}
+    r24 = {(e["own"], e["flof"], e["nrows"], e["nav"]): e["row24"] for e in r.tr if "row24" in e}
+    if len(links) != 8 * 2 * 8 or len(r24) != 16:
+        raise tlc.ToolFailure("TtxFlof evaluation incomplete: %d link sets, %d row 24 entries" % (len(links), len(r24)))
+    return dict(links=links, r24=r24)
+
+
+def flof_packet_raw(mag, raw):
+    """X/27/0 from the link fields the spec prints (TtxFlof!RawLink: units, tens, relative magazine bits, subcode): designation 0,
+    six links (EN 300 706 9.6.1: page units / tens, S1, S2 + M1, S3, S4 + M2 M3), link control 0xF (row 24 displayed), CRC 0"""
+    pk = ttx.mrag(mag, 27) + [ttx.ham8(0)]
+    for units, tens, m, sub in raw:
+        pk += [ttx.ham8(units), ttx.ham8(tens), ttx.ham8(sub & 15), ttx.ham8(((sub >> 4) & 7) | ((m & 1) << 3)),
+               ttx.ham8((sub >> 8) & 15), ttx.ham8(((sub >> 12) & 3) | (((m >> 1) & 1) << 2) | (((m >> 2) & 1) << 3))]
+    pk += [ttx.ham8(0x0F), 0, 0]
+    assert len(pk) == 42
+    return pk
+
+
+class Concretiser:
+    """the model's magazines 1, 2 are names (TtxAssembly uses a magazine only through MagOf): per transmission they become two
+    different real magazines 1..8, and a variant 0..7 of the link sets is chosen (TtxFlof!LinkSet); cycles through all
+    8 x 7 x 8 combinations"""
+    def __init__(self, rnd):
+        self.i = rnd.randrange(448)
+        self.seen = set()
+
+    def pick(self):
+        i = self.i = self.i + 1
+        m1 = i % 8 + 1
+        m2 = (m1 - 1 + (i // 8) % 7 + 1) % 8 + 1
+        v = (i + i // 8 + i // 56) % 8
+        self.seen.add((m1, v)); self.seen.add((m2, v))
+        return dict(mm={1: m1, 2: m2}, v=v)
+
+
+def rowhex(cells):
+    """canonical seven-field cells -> the compact form of the driver's G answer (opacity: boxed 2, else 3)"""
+    return "".join("%04x%02x%02x%x%x%x%x" % (u, fg, bg, fl, cn, sz, 2 if bx else 3) for (u, fg, bg, fl, cn, sz, bx) in cells)
+
+
+_HEX = {}
+
+
+def rowhex_of(cells):
+    h = _HEX.get(id(cells))
+    if h is None or h[0] is not cells:
+        h = _HEX[id(cells)] = (cells, rowhex(cells))
+    return h[1]
+
+
+def unhex(s, c):
+    x = s[12 * c:12 * c + 12]
+    return [int(x[0:4], 16), int(x[4:6], 16), int(x[6:8], 16), int(x[8], 16), int(x[9], 16), int(x[10], 16), OPACITY_BOXED.get(int(x[11], 16), 10 + int(x[11], 16))]
+
+
 def expected_grid(v, cmap, tab):
     """displayed rows 1..24 of a stored version: list of 24 lists of 40 cells"""
     grid, prev_dh_key = [], None
@@ -203,7 +281,7 @@ def expected_grid(v, cmap, tab):
             grid.append(tab[prev_dh_key]["lower"]); prev_dh_key = None
             continue
         if cid == 0:
-            grid.append([canon7(BLANK)] * 40)
+            grid.append(BLANK40)
             continue
         key = (cmap[cid], v["nat"])
         grid.append(tab[key]["cells"])
@@ -221,10 +299,13 @@ def no_link(pgno):
     return pgno <= 0 or (pgno & 0xFF) == 0xFF
 
 
-def compile_beh(rnd, beh, lib, tab, picker, cmap=None):
-    """-> (script, checks, cmap); cmap: content id -> library row (given when a recorded case is replayed)"""
+def compile_beh(rnd, beh, lib, tab, picker, cmap=None, flof=None, conc=None):
+    """-> (script, checks, cmap); cmap: content id -> library row (given when a recorded case is replayed);
+    flof: eval_flof() tables; conc: Concretiser.pick() (real magazines of the model's magazines, link set variant)"""
     serial = beh["mode"] == "serial"
     steps = beh["steps"]
+    mm, fv = conc["mm"], conc["v"]
+    cpg = lambda pg: (mm[pg >> 8] << 8) | (pg & 0xFF)
     if cmap is None:
         # double height / size rows never on rows 23/24
         uses24 = {st["act"]["c"] for st in steps if st["act"]["a"] == "Row" and st["act"]["r"] >= 23}
@@ -236,28 +317,34 @@ def compile_beh(rnd, beh, lib, tab, picker, cmap=None):
     for st in steps:
         a = st["act"]
         if a["a"] == "Header":
-            pk = ttx.header(a["pg"], a["sub"], ctrl0 | (ttx.C4_ERASE if a["erase"] else 0), national=a["nat"])
+            pk = ttx.header(cpg(a["pg"]), a["sub"], ctrl0 | (ttx.C4_ERASE if a["erase"] else 0), national=a["nat"])
             m = a["pg"] >> 8
         elif a["a"] == "Filler":
-            pk = ttx.header(((a["m"] & 7) << 8) | 0xFF, 0x3F7F, ctrl0)
+            pk = ttx.header(((mm[a["m"]] & 7) << 8) | 0xFF, 0x3F7F, ctrl0)
             m = a["m"]
         elif a["a"] == "Row":
-            pk = ttx.row(a["m"], a["r"], lib[cmap[a["c"]] - 1])
+            pk = ttx.row(mm[a["m"]], a["r"], lib[cmap[a["c"]] - 1])
         else:
-            pk = flof_packet(a["m"], a["f"])
+            pk = flof_packet_raw(mm[a["m"]], flof["links"][(mm[a["m"]], a["f"], fv)]["raw"])
         lines.append("P " + ttx.hexpk(pk)); pkidx += 1
         checks.append(("ev", len(lines) - 1, None))
         for v in st["term"]:
             hdr = opened.get(v["pg"] >> 8)
             grid = expected_grid(v, cmap, tab)
+            pg = cpg(v["pg"])
             for sub in (v["sub"], 0x3F7F):
                 brief = sub == 0x3F7F           # the wildcard fetch is compared by page / subpage number only
-                lines.append("F %x %x 1 %d" % (v["pg"], sub, 1 if brief else 4))
-                checks.append(("page", len(lines) - 1, dict(pg=v["pg"], sub=v["sub"], grid=grid, hdr=hdr[2] if hdr else None, at=pkidx, brief=brief)))
-            lines.append("C %x %x" % (v["pg"], v["sub"]))
+                lines.append("F %x %x 1 %d" % (pg, sub, 1 if brief else 4))
+                checks.append(("page", len(lines) - 1, dict(pg=pg, sub=v["sub"], grid=grid, hdr=hdr[2] if hdr else None, at=pkidx, brief=brief)))
+            lines.append("C %x %x" % (pg, v["sub"]))
             checks.append(("cached", len(lines) - 1, None))
-            lines.append("N %x %x" % (v["pg"], v["sub"]))
-            checks.append(("nav", len(lines) - 1, dict(pg=v["pg"], sub=v["sub"], flof=v["flof"], row24=v["rows"][23] != 0, mag=v["pg"] >> 8)))
+            own24 = v["rows"][23] != 0
+            want = flof["links"][(pg >> 8, v["flof"], fv)]["want"] if v["flof"] else None
+            for level, nrows, nav in VARIANTS:
+                # the other fetch variants: rows 1..23 as in the plain fetch, row 24 as TtxFlof!Row24 says, the links with navigation
+                lines.append("G %x %x %d %d %d" % (pg, v["sub"], level, nrows, nav))
+                checks.append(("var", len(lines) - 1, dict(pg=pg, sub=v["sub"], grid=grid, nrows=nrows, nav=nav, flof=v["flof"], fv=fv, want=want, row24=own24,
+                                                           r24=flof["r24"][(own24, v["flof"] != 0, nrows, bool(nav))])))
         if a["a"] == "Header":
             opened[m] = (a["pg"], a["sub"], pkidx)
         elif a["a"] == "Filler":
@@ -273,8 +360,8 @@ def compare_nav(e, g, ln):
     nav = nav_of(g)
     for k in (0, 1, 2, 3, 5):
         pg, sub = nav[k]
-        want = LINKSETS[e["flof"]][k] if e["flof"] else None
-        if want is not None and no_link(want[0]):
+        want = e["want"][k] if e["flof"] else None
+        if want is not None and want[0] == 0:
             want = None
         if k == 5 and want is None:
             continue                                # without an index link the decoder offers the initial page of 8/30
@@ -284,7 +371,30 @@ def compare_nav(e, g, ln):
         elif (pg, sub) != want:
             if e["row24"] and k < 4 and no_link(pg):
                 continue
-            return ("diverge:links:wrong", "%s: link %d is %x/%x, transmitted (link set %d): %x/%x" % (ln, k, pg, sub, e["flof"], want[0], want[1]))
+            return ("diverge:links:wrong", "%s: link %d is %x/%x, transmitted (link set %d variant %d): %x/%x" % (ln, k, pg, sub, e["flof"], e["fv"], want[0], want[1]))
+    return None
+
+
+def compare_var(e, g, ln):
+    """a fetch variant (24 / 25 display rows, navigation on / off): rows 1..23 as the plain fetch, row 24 by TtxFlof!Row24"""
+    if not g.get("ok"):
+        return ("diverge:fetch:not-cached", "%s: page %x/%x must be stored at this point" % (ln, e["pg"], e["sub"]))
+    if g["pgno"] != e["pg"] or g["subno"] != e["sub"]:
+        return ("diverge:fetch:wrong-version", "%s: spec %x/%x, fetched %x/%x" % (ln, e["pg"], e["sub"], g["pgno"], g["subno"]))
+    if g["nrows"] != e["nrows"]:
+        return ("diverge:fetch:nrows", "%s: %d rows asked, %d returned" % (ln, e["nrows"], g["nrows"]))
+    last = 24 if e["r24"] in ("own", "blank") else 23
+    for r in range(1, last + 1):
+        er = BLANK40 if (r == 24 and e["r24"] == "blank") else e["grid"][r - 1]
+        eh, gh = rowhex_of(er), g["rows"][r][:480]
+        if eh != gh:
+            c = next(c for c in range(40) if eh[12 * c:12 * c + 12] != gh[12 * c:12 * c + 12])
+            ec, gc = unhex(eh, c), unhex(gh, c)
+            what = FIELDS[next(k for k in range(7) if ec[k] != gc[k])]
+            return ("diverge:fetch:%s" % what, "%s (%d display rows, navigation %s) row %d column %d: spec %s%s, fetched %s"
+                    % (ln, e["nrows"], "on" if e["nav"] else "off", r, c, ec, " (the row 24 this version holds, TtxFlof!Row24 = own)" if r == 24 else "", gc))
+    if e["nav"] and e["nrows"] == 25:
+        return compare_nav(e, g, ln)
     return None
 
 
@@ -304,13 +414,13 @@ def compare(lines, checks, got):
         elif kind == "cached":
             if not g["cached"]:
                 return ("diverge:is_cached", "vbi_is_cached is false for a page the spec says is stored (%s)" % lines[i])
-        elif kind == "nav":
+        elif kind == "var":
             pages.append((e, g, lines[i], True))
         else:
             pages.append((e, g, lines[i], False))
     for e, g, ln, nav in pages:
         if nav:
-            bad = compare_nav(e, g, ln)
+            bad = compare_var(e, g, ln)
             if bad:
                 return bad
             continue
@@ -334,12 +444,15 @@ def compare(lines, checks, got):
     return None
 
 
-def run_set(ctx, drv, behs, lib, tab, label, picker=None, cmaps=None, batch=4000):
+def run_set(ctx, drv, behs, lib, tab, label, picker=None, cmaps=None, batch=4000, flof=None, concs=None):
     """replay in batches: the answers of a batch (every cell of every fetched page) are dropped before the next one runs"""
     rnd = random.Random(ctx.seed * 31 + 5)
     picker = picker or RowPicker(rnd, lib, tab)
+    if not hasattr(picker, "conc"):
+        picker.conc = Concretiser(rnd)
     for b0 in range(0, len(behs), batch):
-        run_batch(ctx, drv, behs[b0:b0 + batch], lib, tab, rnd, picker, cmaps[b0:b0 + batch] if cmaps else None)
+        run_batch(ctx, drv, behs[b0:b0 + batch], lib, tab, rnd, picker, cmaps[b0:b0 + batch] if cmaps else None, flof,
+                  concs[b0:b0 + batch] if concs else None)
     if behs:
         m = len(behs) // 2
         ctx.sample(dict(source=label, mode=behs[m]["mode"], actions=[st["act"] for st in behs[m]["steps"]],
@@ -347,8 +460,9 @@ def run_set(ctx, drv, behs, lib, tab, label, picker=None, cmaps=None, batch=4000
     return picker
 
 
-def run_batch(ctx, drv, behs, lib, tab, rnd, picker, cmaps):
-    comp = [compile_beh(rnd, b, lib, tab, picker, cmaps[i] if cmaps else None) for i, b in enumerate(behs)]
+def run_batch(ctx, drv, behs, lib, tab, rnd, picker, cmaps, flof, concs):
+    concs = concs or [picker.conc.pick() for b in behs]
+    comp = [compile_beh(rnd, b, lib, tab, picker, cmaps[i] if cmaps else None, flof, concs[i]) for i, b in enumerate(behs)]
     chunks = [list(range(k, len(behs), 16)) for k in range(16)]
 
     def job(idx):
@@ -362,6 +476,7 @@ def run_batch(ctx, drv, behs, lib, tab, rnd, picker, cmaps):
             nterm = sum(1 for c in checks if c[0] == "page")
             ctx.count_case(lines, nontrivial=nterm > 0)
             rp = dict(script=lines, beh=behs[i], seed=ctx.seed, cmap={str(k): v for k, v in cmap.items()},
+                      conc=dict(mm={str(k): v for k, v in concs[i]["mm"].items()}, v=concs[i]["v"]),
                       rows={str(v): lib[v - 1] for v in sorted(set(cmap.values()))})
             if r["stderr"] and r["crashed"]:
                 core.report_sanitizers(ctx, r["stderr"], replay=rp, in_scope=False)
@@ -380,17 +495,26 @@ def setup(ctx):
 def run(ctx):
     quick = ctx.tier == "quick"
     ctx.cov["rule"] = ("cases = transmissions (one per distinct terminal state of the bounded TtxAssembly model, sampled in the quick tier, and random "
-                       "long transmissions) sent as real packets, rows from a library that pairs every spacing attribute with hold mosaics on / off; "
+                       "long transmissions, plus the transition cover of retransmissions of a stored page) sent as real packets in every pair of "
+                       "magazines 1..8 with every variant of the link sets, rows from a library that pairs every spacing attribute with hold mosaics on / off; "
                        "distinct by packet bytes; non-trivial = at least one page is terminated and compared cell by cell")
     ctx.assumptions += ["consistent header text (no channel switch inferred)", "two consecutive headers of a magazine never carry the same page number",
                         "double height / double size are not transmitted on rows 23 and 24, the size returns to normal before column 39, and a "
-                        "double height / double size attribute governs at least one cell (EN 300 706 12.2 leaves the other cases open)"]
+                        "double height / double size attribute governs at least one cell (EN 300 706 12.2 leaves the other cases open)",
+                        "GeneratedRow24: with navigation on and no row 24 transmitted for the stored version the decoder may generate row 24 itself; its content is not compared",
+                        "X/27/0 is sent with link control 0xF (row 24 displayed), links name decimal page numbers or FF"]
     drv = build.build_driver("drv_ttx")
     n_sim = 1500 if quick else 20000
 
     def job(k):
         if k == "lib":
             return setup(ctx)
+        if k == "flof":
+            return eval_flof(ctx)
+        if k == "retx":
+            # transition cover of retransmissions (one magazine, one page, rows {1, 24}, both link sets): every way a stored
+            # page is sent again and terminated, by a shortest transmission
+            return tlc.run("Gen_TtxRetx", "Gen_TtxRetx_q" if quick else "Gen_TtxRetx_t", timeout=1200, collect_tr=True, heap="4g", workers=1)
         if k == "mc":
             return tlc.run("MC_TtxAssembly", "MC_TtxAssembly_q" if quick else "MC_TtxAssembly_t", timeout=2400, coverage=not quick, heap="8g", workers=3)
         if k == "gen":
@@ -401,15 +525,22 @@ def run(ctx):
         return tlc.run("Gen_TtxAssembly", "Gen_TtxAssembly_sim", timeout=1200, collect_tr=True, heap="4g", simulate=max(20, n_sim // 20), depth=16,
                        seed=ctx.seed, workers=2, max_tr=n_sim)      # TLC prints every successor of the last but one state of a walk: about 20
                                                                     # transmissions per walk that differ in the last packet; any n_sim will do
-    (lib, tab), r, g, s = core.pmap(job, ["lib", "mc", "gen", "sim"], workers=4)
+    (lib, tab), flof, x, r, g, s = core.pmap(job, ["lib", "flof", "retx", "mc", "gen", "sim"], workers=6)
     ctx.add_mc(r, "MC TtxAssembly")
     if r.violation:
         ctx.violate("mc", "mc:%s:%s" % (r.violation["kind"], r.violation["name"]), r.violation["text"][:3000])
     ctx.add_mc(g, "GEN TtxAssembly")
-    picker = run_set(ctx, drv, g.tr, lib, tab, "Gen_TtxAssembly")
+    picker = run_set(ctx, drv, g.tr, lib, tab, "Gen_TtxAssembly", flof=flof)
+    ctx.add_mc(x, "GEN TtxRetx (transition cover of retransmissions)")
+    xs = x.tr[ctx.seed % QUICK_RETX::QUICK_RETX] if quick else x.tr
+    run_set(ctx, drv, xs, lib, tab, "Gen_TtxRetx", picker=picker, flof=flof)
+    ctx.notes.append("retransmissions of a stored page: %d printed by TLC, %d replayed" % (len(x.tr), len(xs)))
     ctx.add_mc(s, "SIM TtxAssembly (depth 14)")
-    run_set(ctx, drv, s.tr, lib, tab, "Sim_TtxAssembly", picker=picker)
+    run_set(ctx, drv, s.tr, lib, tab, "Sim_TtxAssembly", picker=picker, flof=flof)
     ctx.notes.append("simulated behaviours replayed: %d" % len(s.tr))
+    ctx.notes.append("(magazine of the linking page, link set variant) pairs transmitted: %d of 64" % len(picker.conc.seen))
+    if len(picker.conc.seen) < 64:
+        raise tlc.ToolFailure("only %d of the 64 (magazine, link set variant) pairs were transmitted" % len(picker.conc.seen))
     ctx.notes.append("library rows assigned to content ids: %d of %d" % (len(picker.used), len(lib)))
     if len(picker.used) < len(lib):
         raise tlc.ToolFailure("only %d of the %d library rows were transmitted: the replayed sample is too small" % (len(picker.used), len(lib)))
@@ -425,4 +556,5 @@ def replay(ctx, rp):
     cmap = {int(k): v for k, v in r["cmap"].items()} if r.get("cmap") else None
     if cmap and any(lib[v - 1] != r["rows"][str(v)] for v in cmap.values()):
         raise tlc.ToolFailure("the row library of this tree differs from the recorded one")
-    run_set(ctx, drv, [r["beh"]], lib, tab, "replay", cmaps=[cmap] if cmap else None)
+    conc = dict(mm={int(k): v for k, v in r["conc"]["mm"].items()}, v=r["conc"]["v"]) if r.get("conc") else dict(mm={1: 1, 2: 2}, v=0)
+    run_set(ctx, drv, [r["beh"]], lib, tab, "replay", cmaps=[cmap] if cmap else None, flof=eval_flof(ctx), concs=[conc])
